@@ -266,8 +266,8 @@ func pairStates() []pairState {
 // differential part: the set of bound keys must be the one of a sequential order.
 func (w *poolWorld) invariants(openCalls int, resolved string, blocked []string) (map[string][]string, string) {
 	gb := w.gb
-	gb.mu.RLock()
-	defer gb.mu.RUnlock()
+	// (no lock: the controller runs only when every thread is parked or finished, and a lock that
+	// the code under test leaked must show as a verdict, not block the harness)
 	name := func(sc balancer.SubConn) string {
 		if f, ok := sc.(*fakeSC); ok && f != nil {
 			return f.String()
